@@ -47,7 +47,8 @@ func shutdownMode(seed uint64) {
 		panic(err)
 	}
 	defer os.RemoveAll(dir)
-	forcedShutdownRound(&renderer{dir: dir}, dir, seed)
+	forcedShutdownRound(&renderer{dir: dir}, dir, seed, false)
+	forcedShutdownRound(&renderer{dir: dir}, dir, seed, true)
 }
 
 func gracefulRound() {
